@@ -463,3 +463,111 @@ func Corpus() []Case {
 		Ops: blocksOf(u, 50, 1, 2, 47, 100, 100), Note: "auto with veto"})
 	return out
 }
+
+// GenShadow: an edge trigger at E with level crossings placed exactly nsamp-2 .. nsamp+2 before and after it
+// (the level pass must skip |k-E| < nsamp and nothing else), block boundaries near the three events.
+func GenShadow(r *lib.Rng, id int64, tier string) Case {
+	npre, nsamp := pickLengths(r)
+	c := Case{ID: id, Npre: npre, Nsamp: nsamp, Rate: pickRate(r), F0: pickF0(r), T0: int64(3e9), Note: "shadow"}
+	signed := r.Chance(1, 3)
+	base := r.Pick([]int{1000, 20000, 32700, 60000})
+	if signed {
+		base = r.Pick([]int{-100, -20, 10, 5000, -30000})
+	}
+	h := 60
+	rising := !r.Chance(1, 3)
+	thr := base + 30
+	if !rising {
+		h = -60
+		thr = base - 30
+	}
+	ts := TS{Edge: true, ERising: true, ELevel: int32(r.Pick([]int{250, 1000})), Level: true, LRising: rising,
+		LLevel: thr & 0xffff, DelayNs: delayNs(100000, c.Rate)}
+	if !signed {
+		ts.LLevel = thr
+	}
+	if r.Chance(1, 4) {
+		ts.Auto = true
+		ts.DelayNs = delayNs(r.Pick([]int{nsamp, 2*nsamp + 1, 5 * nsamp}), c.Rate)
+	}
+	n := 9 * nsamp
+	x := flat(n, base)
+	e := r.Range(3*nsamp, 5*nsamp)
+	off1 := nsamp + r.Pick([]int{-2, -1, 0, 1, 2})
+	off2 := nsamp + r.Pick([]int{-2, -1, 0, 1, 2})
+	addStep(x, e-off1, h)
+	addPulse(x, e, 3000, 3)
+	addStep(x, e+5, -h)
+	addStep(x, e+off2, h)
+	// boundaries near the events
+	cuts := map[int]bool{}
+	offs := []int{0, 1, 2, 3, -1, -2, -3, npre, -npre, nsamp - npre, -(nsamp - npre), nsamp, -nsamp}
+	for k := r.Range(1, 4); k > 0; k-- {
+		at := []int{e - off1, e, e + off2}[r.Intn(3)] + r.Pick(offs)
+		if r.Chance(1, 4) {
+			at = r.Range(1, n-1)
+		}
+		if at > 0 && at < n {
+			cuts[at] = true
+		}
+	}
+	var blocks []int
+	prev := 0
+	for p := 1; p < n; p++ {
+		if cuts[p] {
+			blocks = append(blocks, p-prev)
+			prev = p
+		}
+	}
+	blocks = append(blocks, n-prev)
+	cc := ChanCfg{Signed: signed}
+	ctl := map[int][]Op{}
+	if r.Chance(2, 3) {
+		cc.Restored = &ts
+	} else {
+		ctl[0] = append(ctl[0], Op{Op: "CT", Chans: []int{0}, TS: &ts})
+	}
+	c.Chans = []ChanCfg{cc}
+	assemble(&c, [][]int{toRaw(x, signed)}, blocks, ctl, r)
+	return c
+}
+
+// GenGrow: a channel started with very short records is reconfigured to much longer ones (the retained history is
+// sized by the old length at that moment), then pulses arrive at block boundaries placed relative to the new lengths.
+func GenGrow(r *lib.Rng, id int64, tier string) Case {
+	c := Case{ID: id, Npre: 3, Nsamp: r.Pick([]int{4, 5, 6}), Rate: pickRate(r), F0: pickF0(r), T0: int64(4e9), Note: "grow"}
+	npre2 := r.Pick([]int{3, 5, 10, 16})
+	nsamp2 := npre2 + r.Pick([]int{8, 14, 20, 30})
+	signed := r.Chance(1, 4)
+	base := 2000
+	if signed {
+		base = -50
+	}
+	ts := TS{Edge: true, ERising: true, ELevel: 100, LLevel: 4000, DelayNs: 250e6}
+	if r.Chance(1, 3) {
+		ts.Level, ts.LRising, ts.LLevel = true, true, (base+500)&0xffff
+	}
+	nb := r.Range(3, 5)
+	var blocks []int
+	n := 0
+	for k := 0; k < nb; k++ {
+		b := r.Range(nsamp2, 3*nsamp2)
+		if k == 0 && r.Bool() {
+			b = r.Range(1, 2*nsamp2)
+		}
+		blocks = append(blocks, b)
+		n += b
+	}
+	bnd := boundaries(blocks)
+	x := flat(n, base)
+	offs := []int{0, 1, 2, 3, -1, -2, -3, npre2, -npre2, nsamp2 - npre2, -(nsamp2 - npre2), -(nsamp2 - npre2) - 1, -(nsamp2 - npre2) + 1, -nsamp2}
+	for k := r.Range(1, 3); k > 0; k-- {
+		at := bnd[r.Intn(len(bnd))] + r.Pick(offs)
+		addPulse(x, at, 1500, r.Pick([]int{3, nsamp2 / 2, 2 * nsamp2}))
+	}
+	c.Chans = []ChanCfg{{Signed: signed, Restored: &ts}}
+	ctl := map[int][]Op{}
+	ctl[r.Intn(2)] = []Op{{Op: "CL", Nsamp: nsamp2, Npre: npre2}}
+	assemble(&c, [][]int{toRaw(x, signed)}, blocks, ctl, r)
+	return c
+}
